@@ -7,13 +7,25 @@ package nsqd
 
 // A `go once.Do(f)` statement is recorded by ghosts (the goroutine itself is not followed): how many were
 // started and on which sync.Once.
+// (round 7) ... and WHICH function was handed over (onceSpawnedFn = fnname of the function literal: its body is verified as a function of its
+// own, RemoveClient$1 / DeleteExistingChannel$1 in zz_contracts_r7_verif.go). A synchronous once.Do(f) (the exit functions of the three
+// Main methods) is recorded in the free ghosts r7OnceDos / r7OnceOn / r7OnceFn; the library runs f iff it is the first Do on that Once
+// (documented behaviour of sync.Once - assumed; f's body is verified as a function of its own).
 //@ ghost onceSpawns int
 //@ ghost onceSpawned *sync.Once
-//@ ghostgroup onceSpawns, onceSpawned
+//@ ghost onceSpawnedFn string
+//@ ghostgroup onceSpawns, onceSpawned, onceSpawnedFn
+//@ ghost[free] r7OnceDos int
+//@ ghost[free] r7OnceOn *sync.Once
+//@ ghost[free] r7OnceFn string
 //@ extern (*sync.Once).Do(o, f)
 //@   modifies
 //@   onspawn onceSpawns := onceSpawns + 1
 //@   onspawn onceSpawned := o
+//@   onspawn onceSpawnedFn := fnname(f)
+//@   onreturn r7OnceDos := r7OnceDos + 1
+//@   onreturn r7OnceOn := o
+//@   onreturn r7OnceFn := fnname(f)
 
 // The clauses that use these ghosts are on RemoveClient (zz_contracts_kchannel_verif.go) and on
 // DeleteExistingChannel (zz_contracts_ktopic_verif.go).
